@@ -3,8 +3,10 @@
 // For every generated input it runs the real front-ends (whole buffer and chunked readers, single and
 // multi document), asks the Lean driver for the model outcome (machine over the regenerated tables),
 // the reference-automaton outcome and the RFC 8259 specification outcome, and reports
-//   disagreement: model outcome != implementation outcome            (the tie)
-//   violation:    implementation outcome contradicts the property     (the oracle)
+//
+//	disagreement: model outcome != implementation outcome            (the tie)
+//	violation:    implementation outcome contradicts the property     (the oracle)
+//
 // Only findings that belong to the requested property are reported.
 package main
 
@@ -13,6 +15,7 @@ import (
 	"encoding/json"
 	"flag"
 	"fmt"
+	"hash/fnv"
 	"os"
 	"strings"
 	"sync"
@@ -74,7 +77,16 @@ func main() {
 	// producer
 	var cur [][]byte
 	curBytes := 0
+	seen := map[uint64]struct{}{}
 	emit := func(in []byte) {
+		h := fnv.New64a()
+		h.Write(in)
+		k := h.Sum64()
+		if _, dup := seen[k]; dup {
+			rep.Count("stream.duplicates_skipped", 1)
+			return
+		}
+		seen[k] = struct{}{}
 		cur = append(cur, append([]byte{}, in...))
 		curBytes += len(in)
 		if len(cur) >= 256 || curBytes >= 16384 {
@@ -171,7 +183,7 @@ func main() {
 		fmt.Fprintln(os.Stderr, "harness failure:", e)
 		os.Exit(3)
 	}
-	rep.Rule = "inputs: corpus, exhaustive strings over class-representative alphabets, every (context, mode prefix, byte, suffix), number-shape and escape families, seeded random documents with byte mutations, tokens straddling offset 4096; each input through 8 entry variants x chunkings x {single, multi}; distinct_nontrivial counts distinct inputs of length >= 2 that at least one front-end accepts or rejects after the first byte"
+	rep.Rule = "inputs: corpus, exhaustive strings over class-representative alphabets, every (context, mode prefix, byte, suffix), number-shape and escape families, seeded random documents with byte mutations, tokens straddling offset 4096; each input through 8 entry variants x chunkings x {single, multi}; duplicates are dropped before running (64-bit hash); distinct_nontrivial counts the distinct inputs of length >= 2"
 	if err := rep.Write(*outPath); err != nil {
 		fmt.Fprintln(os.Stderr, err)
 		os.Exit(3)
@@ -322,6 +334,31 @@ func finding(kind, forProp, class, what string, in []byte, extra map[string]any)
 		}
 	}
 	rep.Add(f)
+}
+
+// treesEqualModuloInt19 compares two rendered outcomes (';'-separated documents in multi mode).
+func treesEqualModuloInt19(a, b string) (bool, bool) {
+	as, bs := strings.Split(a, ";"), strings.Split(b, ";")
+	if len(as) != len(bs) {
+		return false, false
+	}
+	used := false
+	for i := range as {
+		x, e1 := lib.ParseCanon(as[i])
+		y, e2 := lib.ParseCanon(bs[i])
+		if e1 != nil || e2 != nil {
+			if as[i] != bs[i] {
+				return false, false
+			}
+			continue
+		}
+		eq, u := lib.EqualModuloInt19(x, y)
+		if !eq {
+			return false, false
+		}
+		used = used || u
+	}
+	return true, used
 }
 
 // knownFinding records an occurrence of a listed known finding (decided by a semantic test).
@@ -485,7 +522,16 @@ func judge(in []byte, idx int, runs []ran, model map[string]string) {
 				if base.v.Name == r.v.Name {
 					cls = "chunking:" + r.v.Name
 				}
-				finding("violation", "C03", cls, "front-ends or chunkings disagree on the outcome", in, desc)
+				knownHit := false
+				if base.o.OK && r.o.OK && lib.HasKnown(knownList, "C03-int19") {
+					if eq, used := treesEqualModuloInt19(base.o.Tree, r.o.Tree); eq && used {
+						knownFinding("C03", "C03-int19", cls, "19-digit integer part: parser fast loop gives text, other paths int64/float64", in, desc)
+						knownHit = true
+					}
+				}
+				if !knownHit {
+					finding("violation", "C03", cls, "front-ends or chunkings disagree on the outcome", in, desc)
+				}
 			}
 		}
 		if split && base != nil && base != r && base.o.OK != r.o.OK {
